@@ -199,6 +199,7 @@ void childMain(const Json& plan, int faultOp, uint64_t faultK, int resFd) {
             Json j = Json::object(); j["allocs"] = (long long)o.allocs; j["status"] = o.status; j["threw"] = o.threw; j["exc"] = o.exc; j["out"] = hex64(o.outHash); j["len"] = (long long)o.outLen; j["errEmpty"] = o.errEmpty;
             if (faultOp < 0) j["bytes"] = o.out;      // dry run: the worker keeps the outputs
             else if ((int)i == faultOp && !o.threw && o.status == 0 && i < g_dryOutputs.size() && o.out != g_dryOutputs[i]) { std::string d; j["diffFeature"] = firstObsDiff(g_dryOutputs[i], o.out, &d); j["diffDetail"] = d; }
+            if ((int)i == faultOp && sc.mm.refused > 0) { jops.push(j); break; }   // the documented recovery is to discard this transformer: nothing more is asked of it except its destructor
             jops.push(j);
         }
         out["ops"] = jops;
